@@ -212,7 +212,7 @@ func truncateString(s string, maxLen int, pos int) string {
 	}
 
 	// If position fits in the first part, truncate from end
-	if pos0 <= maxLen-3 {
+	if pos0 < maxLen-3 {
 		return s[:maxLen-3] + "..."
 	}
 
@@ -255,7 +255,7 @@ func calculateDisplayColumn(originalLine string, originalPos, maxLen int) int {
 	}
 
 	// If position fits in first part
-	if pos0 <= maxLen-3 {
+	if pos0 < maxLen-3 {
 		return originalPos
 	}
 
